@@ -280,12 +280,11 @@ PROPS = {
               "formatters, store JSON dump); three runs in four with statement-level preemption and small quanta. The binary is built with -race and "
               "the scheduler's hand-offs are hidden from the detector. Oracles: no race report in mtail code; counter totals equal the increments "
               "the lines call for; exported monotone series stay within [0, final] and never decrease between successive exports; every exported sample of the scalar "
-              "counter and of the line-number gauge is checked against the step-stamped history of the lines (the counter value must lie between the number of "
-              "increments complete before the scrape began and the number begun when it ended; the gauge must be a value written by a line in flight during the "
-              "scrape or by the last one complete before it) — for a single-writer counter/register this is exactly the linearizability condition; no panic, no "
+              "counter and of the line-number gauge is checked against the step-stamped history of the lines (a counter value may not exceed the number of "
+              "increments begun when the scrape ended; a gauge value must be one a line begun by then wrote) — the statement's 'a value that existed at some point'; no panic, no "
               "deadlock. Non-trivial: at least one exporter ran and GC or a reload was active; distinct = distinct (configuration, schedule signature)."),
         assumptions=["race detection is go's -race (happens-before) with the simulator's own synchronisation made invisible through runtime.RaceDisable; reports whose innermost non-library frame on either side is harness or simulator code are ignored",
-                     "exports-reflect-existing-values: for the scalar counter and the gauge (one writer: the VM) the interval check is the complete linearizability condition, evaluated directly on scheduler step stamps (a line counts as complete when the line after the next has been accepted: two unbuffered hops, conservative); for labelled series and histograms it remains a range/monotonicity check; porcupine is not used because no search is needed with one writer",
+                     "exports-reflect-existing-values is read literally: stale values are allowed (an export cache would be legitimate), values from the future or never written are not; labelled series and histograms keep the range/monotonicity check; porcupine is not used because no search is needed with one writer",
                      "the sim mutexes re-create sync.RWMutex's race annotations (RaceAcquire/Release/ReleaseMerge), so lock ordering is what the detector would see with the real type"],
         expect_probes=[],
         real=["runtime.Runtime + vm.VM", "metrics.Store (Gc loop, Add, Range, MarshalJSON, WriteMetrics)", "exporter.Exporter: Collect/Gather, HandleVarz, HandleGraphite, HandleJSON, PushMetrics + formatters", "Go race detector"],
